@@ -16,8 +16,11 @@ def gen_cases(rng, tier: str) -> list[dict]:
     stream = common.expr_stream(rng, tier, common.sizes(tier, 400, 5000), share=0.3)
     for origin, e in stream:
         vs = common.names_of(e)
+        prior: list[str] = []
         for p in common.points_for(rng, e, 2 if tier == "quick" else 4, extra=0.2):
             c = common.make_eval_case(origin, e, p)
+            c["prior"] = prior[:]
+            prior.append(c["p"])
             r = rng.random()
             if r < 0.12:
                 c["x"] = "w"           # a variable that does not occur
@@ -50,6 +53,9 @@ def check_cases(cases: list[dict], rep: Report, known: dict) -> None:
     for c in cases:
         e = wire.build_raw(c["e"])
         p = wire.build_point(c["p"])
+        for q in c.get("prior", []):          # earlier queries on the same object, at other points
+            call(lambda: sm.Partial(e, c["x"]).at(wire.build_point(q)))
+            call(e.at, wire.build_point(q))
         impl, suffix = impl_query(c, e, p)
         nc = NumCase((c["e"], c["p"], c["x"], c["via"]), suffix, impl, dict(c, impl=repr(impl)))
         nc.info["_e"] = e
